@@ -167,7 +167,8 @@ def histories(draw, tier):
         if kind == "fresh":
             op.update(k=draw(st.integers(0, 3)), m=draw(st.integers(1, 3)))
         elif kind == "start":
-            op.update(k=draw(st.integers(0, 3)), idx=draw(gen.index_list(n, 1, 3)), overwrite=draw(st.booleans()), one_d=draw(st.booleans()))
+            op.update(k=draw(st.integers(0, 3)), idx=draw(gen.index_list(n, 1, 3)), overwrite=draw(st.booleans()), one_d=draw(st.booleans()),
+                      dtype=draw(st.sampled_from(["float64", "float64", "float32"])))
         elif kind == "continue":
             op.update(k=draw(st.integers(0, 3)), overwrite=draw(st.booleans()))
         ops.append(op)
@@ -213,6 +214,8 @@ def check_history(case):
                     init = R.rows_from_indices(op["idx"], n)
                     if op["one_d"]:
                         init = init[0].clone()
+                    if op.get("dtype") == "float32":
+                        init = init.float()
                 else:
                     init = chain
                 before = init.clone()
@@ -259,7 +262,9 @@ def check_history(case):
             require(bool(torch.all((res == 0) | (res == 1))), "history:values", "samples are not 0/1")
             require(torch.equal(res.double().reshape(-1, n), cur), "history:result", "result is not the last visible draw of the chain")
             if given is not None:
-                if overwrite:
+                if overwrite and given.dtype != torch.double:
+                    pass      # a tensor of another dtype cannot be updated in place (cf. the documented device exception); only the law is checked
+                elif overwrite:
                     require(torch.equal(given.double(), res.double()) and given.data_ptr() == res.data_ptr(), "history:overwrite",
                             "overwrite=True must update the caller's start state in place (and return it)")
                 else:
